@@ -158,6 +158,7 @@ CUSTOM_KM = {"t": "T", "v": "V", "str": "S", "data_id": "#", "kind": "K", "unuse
 # outside the admissible options (the model must still agree with the implementation):
 CLASH_KM = {"t": "v", "n": "str", "kind": "data_id", "str": "x"}     # short names that are keys of the entries
 PARTIAL_VM = {"t": ["e", "e", "i"], "kind": ["a"]}                   # does not cover all values; a duplicate
+TREE_DEFAULT_KM = {"data_id": "i", "str": "s"}    # Tree.DEFAULT_KEY_MAP: "s" is also FileSystemTree's size key (finding D51)
 CUSTOM_KM_FS = {"n": "nm", "m": "mt", "unused": "u"}
 CUSTOM_VM = {"t": ["e", "p", "i", "t", "d", "w"]}
 CUSTOM_VM_TYPED = {"t": ["w", "d", "t", "i", "p", "e"], "kind": ["zz", "c", "b", "a", "child"]}
@@ -228,6 +229,8 @@ def resolve_opts(desc):
             skw["key_map"] = False
         elif km == "custom":
             skw["key_map"] = dict(CUSTOM_KM_FS)
+        elif km == "treedefault":
+            skw["key_map"] = dict(TREE_DEFAULT_KM)
         if vm == "false":
             skw["value_map"] = False
         if desc.get("meta"):
@@ -261,7 +264,7 @@ def doc_maps(desc, root):
     km, vm = desc.get("km", "true"), desc.get("vm", "true")
     custom_vm = CUSTOM_VM_TYPED if typed else CUSTOM_VM
     if ms == "fs":      # FileSystemTree.DEFAULT_KEY_MAP = {}, no value map
-        return ({} if km != "custom" else dict(CUSTOM_KM_FS)), {}
+        return (dict(TREE_DEFAULT_KM) if km == "treedefault" else {} if km != "custom" else dict(CUSTOM_KM_FS)), {}
     if km == "false":
         kmap = {}
     elif km == "clash":
@@ -386,6 +389,8 @@ def coq_kopt(desc) -> str:
     if km == "false":
         return "KFalse"
     if desc.get("mapper") == "fs":
+        if km == "treedefault":
+            return "(KCustom " + H.coq_list(f"({H.coq_text(k)}, {H.coq_text(v)})" for k, v in TREE_DEFAULT_KM.items()) + ")"
         if km != "custom":
             return "KTrue"
         return "(KCustom " + H.coq_list(f"({H.coq_text(k)}, {H.coq_text(v)})" for k, v in CUSTOM_KM_FS.items()) + ")"
